@@ -1,5 +1,5 @@
 """BloomFilterOnDisk (C11, C01, C14, C19)"""
-from pyvc.api import CLASSES, classinfo, contract
+from pyvc.api import CLASSES, classinfo, clone_contract, contract
 from .bloom import BLOOM_FIELDS, _BITS_AFTER_ADD
 
 
@@ -18,6 +18,10 @@ contract("BloomFilterOnDisk.__update", contexts=["BloomFilterOnDisk"], propertie
                   ("rest_of_footer_untouched", _FOOTER_REST_SAME),
                   ("size_kept", "len(self._bloom) == old(len(self._bloom))"),
                   ("still_open_nothing_buffered", "fp_open(self) and " + _NO_PENDING)])
+
+# the base-class body reached through super().add_alt() with an on-disk receiver
+clone_contract("BloomFilter.add_alt", "BloomFilter.add_alt@BloomFilterOnDisk", contexts=["BloomFilterOnDisk"],
+               properties=["C11", "C01"])
 
 contract("BloomFilterOnDisk.add_alt", contexts=["BloomFilterOnDisk"], properties=["C11", "C01", "C14"],
          params={"hashes": "list[int]"},
